@@ -125,7 +125,7 @@ def run_cases(ctx, exe, hargs, cases, keyfn, tag, env=None, chunk=20000, max_key
                 what = (what_fn(c, at, f) if what_fn else
                         "%s %s: %s exp=%s got=%s %s" % (op, " ".join(args)[:300], f.kind, (f.exp or exp)[:300], f.got[:300], f.sig))
                 if len(ctx.violations) < max_keys or key in ctx.violations:
-                    ctx.report(key, what, {"harness_args": list(hargs),
+                    ctx.report(key, what, {"harness_args": list(hargs), "env": {k: v for k, v in (env or {}).items() if k.startswith("VH_")},
                                            "script_text": Case(1, c.steps[:at + 1] if whole_script else [c.steps[at]]).text(),
                                            "failure": repr(f)[:2000], "detail": f.detail[:4000], "meta": c.meta})
                 if f.kind in ("crash", "hang", "exit", "inv", "state") and at + 1 < len(c.steps):
@@ -196,6 +196,11 @@ class CaseStream:
         return tot
 
 
+def levels_env(lv):
+    """DebugLevels of the specification (emitted with every case) -> environment of the harness"""
+    return {"VH_LEVELS": ",".join(str(int(x)) for x in lv)}
+
+
 def fail_class(f):
     """kind (+ ASan class and first library frame for crashes)"""
     if f.kind in ("crash", "hang", "exit"):
@@ -234,7 +239,9 @@ def replay_file(exe, hargs, path, rundir, env=None):
         print("replay file has no script_text (a specification-level finding: see the 'tlc' field)")
         print(json.dumps(rp, indent=1)[:3000])
         return 2
-    fails, recs, ns, nt = run_scripts(exe, rp.get("harness_args", hargs), [txt], rundir, jobs=1, env=env, tag="replay")
+    e = dict(env or {})
+    e.update(rp.get("env") or {})          # e.g. VH_LEVELS: the run-time debug levels the step was executed at
+    fails, recs, ns, nt = run_scripts(exe, rp.get("harness_args", hargs), [txt], rundir, jobs=1, env=e, tag="replay")
     for f in fails:
         print("REPRODUCED", f)
         if f.detail:
